@@ -43,6 +43,12 @@ CLAIMED["C16"] = dict(
    technique="symbolic execution of the PEG parser on symbolic bytes + SMT over flag booleans",
    ref="DESIGN.md §5 C16")
 
+CLAIMED["C19"] = dict(
+   text="Bounded model checking over symbolic source text: every input of n bytes (4 quick / 5 thorough) over an alphabet with newlines, quotes, operators and two multi-byte runes runs through the real parser; on every rejecting path the reported offset lies in the input and (line, column) equal the oracle's line/column of that offset (runes as Go decodes them). fmtErr is executed on symbolic input bytes with symbolic line/column and the three language settings: header and position lines are in the configured language only, the quoted line is the reported line, the caret has column-1 spaces before it. Long lines (56..70 bytes) with a symbolic column: caret within the quoted text.",
+   note="Cross-VM independence of the language choice is a shared-state question and is decided by C11's footprint check, not here. Inputs longer than n bytes are outside the claim. Known findings recorded: an error at a newline byte is reported as (next line, column 0); the caret is not moved when a long line is truncated.",
+   technique="symbolic execution of the PEG parser and error formatter on symbolic bytes + SMT",
+   ref="DESIGN.md §5 C19")
+
 NA = {
 }
 
